@@ -11,6 +11,7 @@ import (
 	"path/filepath"
 	"sort"
 	"strconv"
+	"strings"
 	"testing"
 
 	"pgregory.net/rapid"
@@ -123,4 +124,56 @@ func TestSurvey(t *testing.T) {
 		fmt.Printf("=== %6d  %s\n%s\n\n", hist[k].n, k, hist[k].first)
 	}
 	fmt.Printf("total cases %d, failing signatures %d\n", total, len(keys))
+}
+
+// TestMakeRegress (development-time tool): runs the named inputs through runCase against
+// the repository the module currently points at and writes a regression file for each
+// one that fails - run it against the UNFIXED tree, so every committed regression case is
+// known to fail there.
+//
+//	cd /verif/harness && C08_MAKE_REGRESS=/verif/regress/C08 go test -tags verif -count=1 -run '^TestMakeRegress$' -v ./c08
+func TestMakeRegress(t *testing.T) {
+	dir := os.Getenv("C08_MAKE_REGRESS")
+	if dir == "" {
+		t.Skip("C08_MAKE_REGRESS not set")
+	}
+	for _, rc := range [][2]string{
+		{"01-brackets-right-operand", "x := 1 - (2 - 3)\nt.rec(x)"},
+		{"01-brackets-prefix-operand", "x := not (a and b)"},
+		{"01-brackets-tighter-parent", "x := (a < b) * 2"},
+		{"01-brackets-map-value", "x := {\"a\" : (b == c)}"},
+		{"02-blank-line-after-mutex", "mutex a {\n}\nb"},
+		{"03-if-true-duplicated-as-else", "if true {\n    a\n}"},
+		{"04-layout-blank-line-inside-list", "x := [\n\n1,\n\n2]"},
+		{"04-layout-comment-inside-expression", "a + /* c */ b"},
+		{"04-layout-two-comments", "/* a */ /* b */ c"},
+		{"04-layout-comment-after-return", "func f() {\n    return 0 + 0 /* two\n   lines */ + (0 + 0)\n}"},
+		{"04-layout-empty-comment", "/**/0"},
+		{"05-line-comment-swallows-bracket", "f(a # c\n)"},
+		{"05-line-comment-swallows-operator", "a # c\n+ b"},
+		{"06-sign-starts-statement", "a; -b"},
+		{"06-bracket-starts-statement", "a := f(1);\n(b + c) * d"},
+		{"07-comma-accumulates-in-comment", "Foo := {\n  \"super\" : [ Bar ]\n\n  \"id\" : 0\n\n  \"idx\" : 0 # Constructor\n  \"init\" : 1\n}"},
+		{"08-return-with-value-as-operand", "(return 1) + 2"},
+		{"08-bare-return-before-sign", "func f() {\n    return\n    -2\n}"},
+		{"08-bare-return-in-list", "[return\n]"},
+		{"09-needed-comma-swallowed", "x := [1 # c\n, -3, 4, 5, 6]"},
+		{"10-blank-line-after-line-comment", "x := 0 < # c\n 0\n\ny"},
+		{"11-bare-return-at-end-of-input", "return\n#"},
+		{"12-line-comments-joined", "00#\n#"},
+		{"open-times-div-brackets", "x := 7 * (2 / 3)\nt.rec(x)"},
+		{"open-raw-string-printed-quoted", "x := r\"{{1+2}}\"\nt.rec(x)"},
+		{"open-comment-next-to-bracket-lost", "x := 1 + # c\n (2 + 3)"},
+	} {
+		c := Case{Kind: "directed", Src: rc[1], Exec: strings.Contains(rc[1], "t.rec")}
+		f := runCase(c)
+		if f == nil {
+			t.Errorf("%s: %q does not fail on this tree", rc[0], rc[1])
+			continue
+		}
+		os.Setenv("VERIF_REPLAY", filepath.Join(dir, rc[0]+".json"))
+		hx.WriteReplay(c, f)
+		t.Logf("%s: %s", rc[0], f.Sig)
+	}
+	os.Unsetenv("VERIF_REPLAY")
 }
